@@ -121,3 +121,52 @@ Qed.
 Example slot_variant_toplevel_ok :
   veq (errfn_slots ctx_w_bq (fun i => i) [1; 0]%nat 2 ctx_w_data) (mean_loss ctx_w_bq (elems ctx_w_data)).
 Proof. intros [|[|k]]; vm_compute; reflexivity. Qed.
+
+(* ---- why the repository's tests cannot see the slot variant: it is right when every range runs on its own thread ---- *)
+Lemma upd_at_length {X} (a b : list X) x v : upd (length a) v (a ++ x :: b) = a ++ v :: b.
+Proof. induction a as [|y a IH]; [reflexivity|]. cbn [length app upd]. f_equal. exact IH. Qed.
+
+Lemma firstn_S_nth {X} (l : list X) n dflt : (n < length l)%nat -> firstn (S n) l = firstn n l ++ [nth n l dflt].
+Proof.
+  revert n; induction l as [|x l IH]; intros n Hn; [cbn in Hn; lia|].
+  destruct n as [|n]; [reflexivity|]. cbn [firstn nth app]. f_equal. apply IH. cbn in Hn. lia.
+Qed.
+
+Lemma slots_fill (parts : list vec) T n :
+  (n <= length parts)%nat -> (n <= T)%nat ->
+  fold_left (fun slots e => upd (fst e) (snd e) slots) (map (fun i => (i, nth i parts [])) (seq 0 n)) (repeat [] T)
+  = firstn n parts ++ repeat [] (T - n).
+Proof.
+  induction n as [|n IH]; intros Hn HT.
+  - cbn. rewrite Nat.sub_0_r. reflexivity.
+  - rewrite seq_S, map_app, fold_left_app, IH by lia. cbn [map fold_left fst snd plus].
+    replace (T - n)%nat with (S (T - S n)) by lia. cbn [repeat].
+    replace n with (length (firstn n parts)) at 1 by (apply firstn_length_le; lia).
+    rewrite upd_at_length, (firstn_S_nth parts n []) by lia. rewrite <- app_assoc. reflexivity.
+Qed.
+
+Lemma qsum_repeat_nil k m : (qsum (map (fun v : vec => nth k v 0) (repeat [] m)) == 0)%Q.
+Proof.
+  induction m as [|m IH]; [reflexivity|].
+  cbn [repeat map]. unfold qsum in *. cbn [fold_right]. rewrite IH, nth_nil_Q. reflexivity.
+Qed.
+Lemma vsum_repeat_nil m : veq (vsum (repeat [] m)) [].
+Proof. intros k. rewrite nth_vsum, nth_nil_Q. apply qsum_repeat_nil. Qed.
+
+Section SlotOk.
+Context {E : Type}.
+Variable bq : list E -> vec.
+(* every range on its own thread, a team of at least as many threads as ranges (the call from serial code): the slot variant is right *)
+Theorem slots_toplevel_ok threads (d : @data E) :
+  veq (errfn_slots bq (fun i => i) (nested_order threads d) threads d) (errfn bq threads d).
+Proof.
+  unfold errfn_slots, errfn, finish, slot_merge, ctx_events, nested_order.
+  set (rs := thread_ranges threads (length d)).
+  assert (Hl : length (partials bq rs d) = length rs) by (unfold partials; apply map_length).
+  assert (HT : (length rs <= threads)%nat).
+  { unfold rs, thread_ranges. rewrite map_length, seq_length. apply Nat.le_min_l. }
+  rewrite <- Hl. rewrite slots_fill by lia. rewrite firstn_all.
+  apply vdiv_proper; [|reflexivity].
+  rewrite vsum_app, vsum_repeat_nil. intros k. rewrite nth_vadd, nth_nil_Q. ring.
+Qed.
+End SlotOk.
